@@ -309,6 +309,12 @@ func constructRound(t *rapid.T, mutate bool) c13Round {
 	// algebra
 	ctx, rp := c.refCtx()
 	x := ref.SubgroupX(idx, nLog)
+	// x equal to an opening point (zeta or g*zeta) is the degenerate stratum of the "combine" runner
+	// (no quotient exists: plonky2 and the circuit both fail); valid rounds are constructed away from it
+	for xe := (ref.E{x, 0}); ctx.Points[0] == xe || ctx.Points[1] == xe; {
+		c.Zeta[0] = (c.Zeta[0] + 1) % ref.P
+		ctx, rp = c.refCtx()
+	}
 	old := ref.CombineInitial(ctx, rp, x)
 	sx, cur := x, idx
 	for st := 0; st < s.Steps; st++ {
